@@ -231,7 +231,7 @@ func ToBoolean(ctx *expr.Context, input system.Collection, args ...expr.Expressi
 	// Input reading
 	value, err := system.From(input[0])
 	if err != nil {
-		return nil, err
+		return system.Collection{}, nil // not a primitive: not convertible
 	}
 	// Input conversion
 	switch value := value.(type) {
@@ -348,7 +348,7 @@ func ToDecimal(ctx *expr.Context, input system.Collection, args ...expr.Expressi
 	// Input reading
 	value, err := system.From(input[0])
 	if err != nil {
-		return nil, err
+		return system.Collection{}, nil // not a primitive: not convertible
 	}
 	// Input conversion
 	switch value.(type) {
@@ -394,7 +394,7 @@ func ToInteger(ctx *expr.Context, input system.Collection, args ...expr.Expressi
 	// Input reading
 	value, err := system.From(input[0])
 	if err != nil {
-		return nil, err
+		return system.Collection{}, nil // not a primitive: not convertible
 	}
 	// Input conversion
 	switch value.(type) {
@@ -444,7 +444,7 @@ func ToQuantity(ctx *expr.Context, input system.Collection, args ...expr.Express
 	// Input reading
 	value, err := system.From(input[0])
 	if err != nil {
-		return nil, err
+		return system.Collection{}, nil // not a primitive: not convertible
 	}
 	// Input conversion
 	switch value := value.(type) {
